@@ -247,3 +247,22 @@ CLAIMED["C15"]["text"] = CLAIMED["C15"]["text"].replace("PARTIAL. ", "", 1) + (
     " Added (Schema/Example.v, ExampleProofs.v): a model of the example builder as repaired by 6ca17f0 (strict construction with fall-back) with C15_example_accepted_by_type_graph - "
     "whatever the strict builder returns for a node of a type graph with distinct keys is accepted by the set semantics of that node - and C15_plain_example_is_the_example; the builder "
     "model's output shape is compared with Example() on the rule-free skeletons of the generated graphs.")
+CLAIMED["C06"]["text"] += (" Added: executable Coq models of the enum-rule scanner (Enum/EnumScanner.v, 33 step functions) and of the JSight schema scanner (SchemaScan/SchemaScanner.v, 55 step functions, "
+                           "annotations, shortcuts, comments, length mode), each validated against the library's raw event streams on millions of inputs when written and on ~15k texts x 2 modes on every "
+                           "check. Proved for all byte strings: C06_enum_scanner_agrees_with_json_scanner and C06_schema_scanner_agrees_with_json_scanner - on a text without comments / annotations / "
+                           "shortcuts that the scanner accepts, its events other than NewLine are exactly the JSON scanner's events (the cross-scanner sentence of the property, as a theorem between "
+                           "pushdown machines); C06_enum_spans_inside, C06_schema_spans_inside (with the two exact corner cases); C06_*_event_codes_match_source and C06_is_opening_matches_source - the "
+                           "event types and IsOpening of all three models are those of internal/lexeme/lex_event_type.go (translated by tabx on every run).")
+CLAIMED["C07"]["text"] += (" Added: C07_enum_scanner_no_panic and C07_schema_scanner_no_panic / C07_schema_len_no_panic - the models of the two scanners never end in an internal panic (stack discipline, "
+                           "returnToStep, look-ahead, Length's index) for any bytes in either mode. The API fuzz also calls NextLexeme after the end of a stream, feeds every rule name with degenerate "
+                           "values on every example kind, self-referential types in key/value position and a second added type inheriting a defect with allOf; a process-killing input is isolated by "
+                           "bisection. Five defects found this way were repaired (b5ed04f, 2d806bf, fe045a3, 6ce007e, 0d7fa20).")
+CLAIMED["C14"]["text"] += (" Added for the enum and schema halves (models Enum/EnumScanner.v enum_len, SchemaScan/SchemaScanner.v schema_len, run against Enum.Len / Schema.Len on every check): "
+                           "C14_enum_len_prefix, C14_enum_len_stable (Len of the prefix Len returns is the same number), C14_schema_len_prefix, C14_schema_len_positive - what Len returns is a prefix "
+                           "length, not ending in a blank, positive when the text begins with a value. JSON Len is also probed after 1..3 lexemes / a full read / Check on the same document.")
+CLAIMED["C17"]["text"] += (" Added: C17_schema_error_position_inside and C06_enum_error_position_inside - an error of the schema / enum scanner models points inside the text (the last byte when it ends "
+                           "early); one DocumentError moved with SetIndex renders like a fresh one (checked on every run).")
+CLAIMED["C18"]["text"] += (" Added: the enum scanner model and its theorems (see C06/C07/C14) cover the rule's Check verdict, which is compared with Enum.Check on every run; rule and regex objects shared "
+                           "by several schemas, stand-alone and empty comments are generated; fix edd119f (empty // comment) came from the model's differential run.")
+for k in ("C06", "C14"):
+    CLAIMED[k]["text"] = CLAIMED[k]["text"].replace("PARTIAL. ", "", 1) if CLAIMED[k]["text"].startswith("PARTIAL. ") else CLAIMED[k]["text"]
